@@ -266,5 +266,5 @@ pub fn run(env: &mut Env) {
         std::iter::once(Case { src, ts, resolve: k % 10 == 0 })
     });
     env.exhaustive_parts.push(format!("C18: all {} vendored zoneinfo files (fat + slim), timestamps at sampled transitions -1/0/+1, rule switch instants +-1 s, 1 Jan / 1 Jul / 28 Feb-1 Mar of sampled years, random in 1900-2500", idx.len()));
-    env.run_random::<Lookup>(if t { 1_000_000 } else { 20_000 });
+    env.run_random::<Lookup>(if t { 1_000_000 } else { 100_000 });
 }
